@@ -526,7 +526,7 @@ def main(ctx):
     nseeds = 50 if ctx.quick else 200
     seeds = list(range(S, S + nseeds))
     for i in range(0, nseeds, 5):
-        cells.append({"kind": "samplers", "seeds": seeds[i:i + 5], "halton_dims": [(1, False), (2, False), (3, False), (3, True), (10, True), (40, True)] if i == 0 or not ctx.quick else [(1, False), (3, False), (5, True)],
+        cells.append({"kind": "samplers", "seeds": seeds[i:i + 5], "halton_dims": [(1, False), (2, False), (3, False), (3, True), (10, True), (17, True), (18, True), (22, True), (40, True)] if i == 0 or not ctx.quick else [(1, False), (3, False), (5, True), (16 + i // 5, True), (20 + i // 5, True)],
                       "rseq_dims": [1, 2, 3, 10, 40] if i == 0 or not ctx.quick else [1, 2, 7], "phi": i == 0,
                       "dim_changes": [(a, b) for a in DIMS_CH for b in DIMS_CH if a != b][i // 5::nseeds // 5], "copy_dims": DIMS_CH[i // 5::nseeds // 5]})
     ctx.bounds = {"halton_indices": f"[0, {N_IDX})", "primes": nb, "batch_sizes": "sizes 1,2 at every end position, 3(,4) aligned; sizes 5,8,61(,16) aligned and at every end position within 12 (32 thorough; 2 for size > 8) of a power of 2, 3 or 5", "sampler_seeds": f"{S}..{S + nseeds - 1}",
